@@ -806,6 +806,404 @@ def stream_zerocol(chk, i, rng):
     chk.count(("zerocol", name, kw["alpha"], kw["solver"], tuple(sel)) if nun > 0 else None)
 
 
+# ------------------------------------------------------------------ streams 7-9 (round-3 lessons): representations, corners, routes
+import copy
+
+
+def snapshot(obj):
+    """deep copy of an argument, to compare bit for bit after the call"""
+    if isinstance(obj, np.ndarray):
+        return np.array(obj, copy=True, order="K")
+    return copy.deepcopy(obj)
+
+
+def same_bits(a, b):
+    if isinstance(a, np.ndarray) or isinstance(b, np.ndarray):
+        return isinstance(a, np.ndarray) and isinstance(b, np.ndarray) and a.dtype == b.dtype and a.shape == b.shape \
+            and a.tobytes() == b.tobytes()
+    if isinstance(a, (list, tuple)):
+        return type(a) is type(b) and len(a) == len(b) and all(same_bits(x, y) for x, y in zip(a, b))
+    return a == b
+
+
+def array_variants(A, rng, integral, binary=False):
+    """the same values as A (float64, C-contiguous) in other representations; every value is exactly representable"""
+    A = np.ascontiguousarray(A, dtype=np.float64)
+    big = np.zeros((2 * A.shape[0], A.shape[1]))
+    big[::2] = A
+    ro = A.copy()
+    ro.setflags(write=False)
+    rof = np.asfortranarray(A)
+    rof.setflags(write=False)
+    out = [("float32", A.astype(np.float32)), ("fortran", np.asfortranarray(A)), ("strided-rows", big[::2]),
+           ("reversed-twice", A[:, ::-1].copy()[:, ::-1]), ("transposed-view", A.T.copy().T), ("read-only", ro),
+           ("read-only-fortran", rof), ("list", A.tolist()), ("tuple", tuple(map(tuple, A.tolist())))]
+    if integral:
+        out += [("int64", A.astype(np.int64)), ("int32", A.astype(np.int32))]
+    if binary:
+        out += [("bool", A.astype(bool))]
+    return out
+
+
+def group_variants(gs, rng):
+    if gs is None:
+        return [("none", None)]
+    def ro(g):
+        a = np.array(g, dtype=np.int64)
+        a.setflags(write=False)
+        return a
+    return [("lists", [list(g) for g in gs]), ("int32-arrays", [np.array(g, dtype=np.int32) for g in gs]),
+            ("int64-arrays", [np.array(g, dtype=np.int64) for g in gs]), ("tuples", [tuple(g) for g in gs]),
+            ("read-only-arrays", [ro(g) for g in gs])]
+
+
+def close_arrays(a, b, tol=1e-9):
+    a, b = np.asarray(a, dtype=float), np.asarray(b, dtype=float)
+    return a.shape == b.shape and bool(np.all(np.abs(a - b) <= tol * (1 + np.abs(a) + np.abs(b)) + 0 * a) or np.array_equal(a, b, equal_nan=True))
+
+
+def labels_agree(p_ref, lab_ref, lab):
+    """labels equal wherever the reference's best two probabilities are clearly apart"""
+    lab_ref, lab = np.asarray(lab_ref), np.asarray(lab)
+    if lab_ref.shape != lab.shape:
+        return False
+    if p_ref.shape[1] == 1:
+        return bool(np.array_equal(lab_ref, lab))
+    srt = np.sort(p_ref, axis=1)
+    clear = (srt[:, -1] - srt[:, -2]) > 1e-6
+    return bool(np.array_equal(lab_ref[clear], lab[clear]))
+
+
+def exact_grid(rng, n, d, K, integral, binary=False):
+    X = impl.blobs(rng, n, d, k=K, scale=1.0)
+    if binary:
+        return (X > np.median(X, axis=0)).astype(float)
+    return np.round(X) if integral else np.round(X * 8) / 8
+
+
+def run_alarmed(fn, limit=10):
+    signal.signal(signal.SIGALRM, _alarm)
+    signal.alarm(limit)
+    try:
+        with warnings.catch_warnings():
+            warnings.simplefilter("ignore")
+            return True, fn()
+    except Wall:
+        return False, None
+    finally:
+        signal.alarm(0)
+
+
+def stream_repr(chk, i, rng):
+    """metamorphic: the same values in another representation (dtype, memory order, view, read-only, list/tuple; groups as
+    arrays / tuples; precomputed affinity likewise) give the same fit / path / predictions, raise nothing new, and leave the
+    caller's objects unchanged bit for bit."""
+    name = impl.SPARSE[i % len(impl.SPARSE)]
+    n, d, K = int(rng.integers(6, 15)), int(rng.integers(2, 6)), int(rng.integers(2, 4))
+    integral = bool(rng.random() < 0.5)
+    binary = integral and rng.random() < 0.25
+    X = exact_grid(rng, n, d, K, integral, binary)
+    gs, gkind = gen_groups(rng, d)
+    mode = "path" if rng.random() < 0.35 else "fit"
+    gem_kw, y = {}, None
+    if name in GENERIC:
+        if rng.random() < 0.35:
+            Z = np.round(rng.normal(size=(n, 2)) * 4) / 4
+            y = Z @ Z.T
+            gem_kw["gemini"] = impl.G.MMDGEMINI(kernel="precomputed")
+        else:
+            gem_kw["gemini"] = str(rng.choice(["mmd_ova", "kl_ova", "tv_ovo", "wasserstein_ova", "mi", "hellinger_ova"]))
+    params = dict(n_clusters=K, max_iter=int(rng.integers(2, 7)), learning_rate=float(rng.choice([1e-2, 5e-2])),
+                  alpha=float(rng.choice([0.5, 2.0, 8.0])), M=float(rng.choice([0.3, 2.0])), n_hidden_dim=int(rng.integers(1, 5)),
+                  solver=str(rng.choice(["adam", "sgd"])), batch_size=None if rng.random() < 0.5 else int(rng.integers(1, n + 3)),
+                  dynamic=bool(rng.integers(0, 2)), random_state=int(rng.integers(0, 1000)))
+    pkw = {"alpha_multiplier": 2.0, "min_features": 1, "max_patience": 2}
+    replay = {"estimator": name, "n": n, "d": d, "K": K, "mode": mode, "groups": gs, "params": {k: v for k, v in params.items()},
+              "gemini": str(gem_kw.get("gemini", "")), "precomputed": y is not None, "X": X.tolist()}
+
+    def train(Xv, yv, gv):
+        est = impl.make(name, groups=gv, **params, **gem_kw)
+        res = est.fit(Xv, yv) if mode == "fit" else est.path(Xv, yv, **pkw)
+        return est, res
+    ok, out = run_alarmed(lambda: train(X, y, None if gs is None else [list(g) for g in gs]))
+    if not ok:
+        chk.dist["repr:wall-limit"] += 1
+        chk.count(None)
+        return
+    ref, ref_res = out
+    ref_w = [np.array(w, copy=True) for w in ref._get_weights()]
+    ref_sel = [int(j) for j in ref.get_selection()]
+    ref_p = ref.predict_proba(X)
+    xv = array_variants(X, rng, integral, binary)
+    yvs = [("same", y)] if y is None else [("same", y)] + array_variants(y, rng, False)
+    gvs = group_variants(gs, rng)
+    picks = [xv[int(k)] for k in rng.choice(len(xv), size=min(4, len(xv)), replace=False)]
+    for lab, Xv in picks:
+        ylab, yv = yvs[int(rng.integers(0, len(yvs)))]
+        glab, gv = gvs[int(rng.integers(0, len(gvs)))]
+        key = f"repr:{mode}"
+        rp = dict(replay, X_as=lab, y_as=ylab, groups_as=glab)
+        before = (snapshot(Xv), snapshot(yv), snapshot(gv))
+        try:
+            ok, out = run_alarmed(lambda: train(Xv, yv, gv))
+        except Exception as e:  # noqa
+            chk.fail(key + ":new-exception", f"{mode} on X as {lab}, affinity as {ylab}, groups as {glab} raises {type(e).__name__}: {str(e)[:150]} "
+                     f"while the float64 C-contiguous call succeeds", rp, layer="L3")
+            continue
+        if not ok:
+            chk.dist["repr:wall-limit"] += 1
+            continue
+        est, res = out
+        if not (same_bits(before[0], Xv) and same_bits(before[1], yv) and same_bits(before[2], gv)):
+            chk.fail(key + ":argument-modified", f"{mode} modified its arguments (X as {lab}, affinity as {ylab}, groups as {glab})", rp, layer="L3")
+        if not all(close_arrays(a, b) for a, b in zip(est._get_weights(), ref_w)):
+            chk.fail(key + ":weights", f"{mode} on X as {lab} / affinity as {ylab} / groups as {glab} ends in other weights than on the float64 C-contiguous "
+                     f"reference (max diff {max(float(np.abs(np.asarray(a) - b).max()) for a, b in zip(est._get_weights(), ref_w))})", rp, layer="L3")
+        elif [int(j) for j in est.get_selection()] != ref_sel:
+            diff = set(ref_sel) ^ set(int(j) for j in est.get_selection())
+            if any(max(np.linalg.norm(skip_of(est)[j]), np.linalg.norm(skip_of(ref)[j])) > 1e-9 for j in diff):
+                chk.fail(key + ":selection", f"get_selection differs: {[int(j) for j in est.get_selection()]} vs reference {ref_sel}", rp, layer="L3")
+        if jgroups(est.groups_) != jgroups(ref.groups_):
+            chk.fail(key + ":groups_", f"groups_ {jgroups(est.groups_)} differs from the reference's {jgroups(ref.groups_)} (groups as {glab})", rp, layer="L3")
+        if mode == "path" and ([int(v) for v in res[4]] != [int(v) for v in ref_res[4]] or not close_arrays(res[3], ref_res[3])):
+            chk.fail(key + ":history", f"path history differs: n_features {res[4]} vs {ref_res[4]}", rp, layer="L3")
+        if not labels_agree(ref_p, ref.labels_, est.labels_):
+            chk.fail(key + ":labels", "labels_ differ from the reference's on clearly separated samples", rp, layer="L3")
+        check_selection(chk, key, est, rp)
+        check_groups_whole(chk, key, est, rp, X)
+        chk.dist["repr:X=" + lab] += 1
+        if glab not in ("none", "lists"):
+            chk.dist["repr:groups=" + glab] += 1
+        if ylab != "same":
+            chk.dist["repr:affinity=" + ylab] += 1
+    # predict-type calls of the reference model on the query in other representations
+    yq = y
+    sc_ref = float(ref.score(X, yq))
+    for lab, Xv in xv:
+        rp = dict(replay, X_as=lab, call="predict")
+        before = snapshot(Xv)
+        try:
+            p = ref.predict_proba(Xv)
+            lb = ref.predict(Xv)
+            sc = float(ref.score(Xv, yq))
+        except Exception as e:  # noqa
+            chk.fail("repr:predict:new-exception", f"predict_proba/predict/score on X as {lab} raises {type(e).__name__}: {str(e)[:150]}", rp, layer="L3")
+            continue
+        if not same_bits(before, Xv):
+            chk.fail("repr:predict:argument-modified", f"a predict-type call modified X (as {lab})", rp, layer="L3")
+        if not close_arrays(p, ref_p, 1e-12) or not labels_agree(ref_p, ref.predict(X), lb) or not close(sc, sc_ref, 1e-9):
+            chk.fail("repr:predict:value", f"predict_proba / predict / score on X as {lab} differ from the float64 reference "
+                     f"(max diff {float(np.abs(np.asarray(p) - ref_p).max())}, score {sc} vs {sc_ref})", rp, layer="L3")
+    chk.traces += 1
+    chk.dist[f"repr:{mode}"] += 1
+    chk.count(("repr", name, mode, gkind, integral, y is not None, n, d))
+
+
+CORNERS = ["K=1", "d=1", "n=K", "bs=n", "bs>n", "bs=1", "one-group", "alpha=0", "minf=d", "minf=d-1", "keep=1", "keep=0", "M=0",
+           "tie-threshold", "neg-zero-row", "adversarial-columns"]
+
+
+def stream_corner(chk, i, rng):
+    """degenerate sizes, inclusive interval ends and adversarial floats through the public call path"""
+    kind = CORNERS[i % len(CORNERS)]
+    name = impl.SPARSE[(i // len(CORNERS) + i) % len(impl.SPARSE)]
+    n, d, K = int(rng.integers(6, 13)), int(rng.integers(2, 6)), int(rng.integers(2, 4))
+    gs, gkind = gen_groups(rng, d)
+    kw = dict(max_iter=int(rng.integers(2, 8)), learning_rate=5e-2, alpha=float(rng.choice([1.0, 5.0, 20.0])), M=float(rng.choice([0.3, 2.0])),
+              n_hidden_dim=int(rng.integers(1, 4)), solver=str(rng.choice(["adam", "sgd"])), batch_size=None, random_state=int(rng.integers(0, 1000)))
+    pkw = {"alpha_multiplier": 2.0, "min_features": 1, "max_patience": 2, "keep_threshold": 0.9}
+    if kind == "K=1":
+        K = 1
+    elif kind == "d=1":
+        d, gs, gkind = 1, ([[0]] if rng.random() < 0.5 else None), "d=1"
+    elif kind == "n=K":
+        n = K
+    elif kind == "bs=n":
+        kw["batch_size"] = n
+    elif kind == "bs>n":
+        kw["batch_size"] = n + int(rng.integers(1, 5))
+    elif kind == "bs=1":
+        kw["batch_size"] = 1
+    elif kind == "one-group":
+        gs, gkind = [rng.permutation(d).tolist()], "one-group"
+    elif kind == "alpha=0":
+        kw["alpha"] = 0.0
+    elif kind == "minf=d":
+        pkw["min_features"] = d
+    elif kind == "minf=d-1":
+        pkw["min_features"] = max(d - 1, 1)
+    elif kind == "keep=1":
+        pkw["keep_threshold"] = 1.0
+    elif kind == "keep=0":
+        pkw["keep_threshold"] = 0.0
+    elif kind == "M=0":
+        kw["M"] = 0.0
+    case = {"estimator": name, "n": n, "d": d, "K": K, "groups": gs, "gkind": gkind, "data_seed": int(rng.integers(0, 2 ** 31 - 1)), "corner": kind}
+    X = data_of(case)
+    replay = dict(case, params=dict(kw), path=pkw)
+    chk.dist["corner:" + kind] += 1
+    if kind in ("tie-threshold", "neg-zero-row"):
+        # exact comparisons inside the shrinkage, reached through _update_weights with the identity optimiser step
+        K = max(K, 2)
+        est = impl.make(name, n_clusters=K, groups=gs, **dict(kw, max_iter=1, solver="sgd"))
+        est.fit(X)
+        V = skip_of(est)
+        V[:] = np.round(rng.uniform(-1, 1, size=V.shape) * 8) / 8 + 2.0      # exactly representable, far from the threshold
+        g0 = [int(j) for j in (est.groups_[0] if est.groups_ is not None and len(est.groups_[0]) else [0])]
+        if kind == "tie-threshold":
+            # the group's flattened skip rows are (3, 4, 0, ...)/8: norm exactly 0.625
+            V[g0] = 0.0
+            V[g0[0], 0] = 0.375
+            V[g0[-1], 1] = 0.5
+            if hasattr(est, "W1_"):
+                est.W1_[g0] = 0.0
+            thr = [0.625, float(np.nextafter(0.625, 1.0)), float(np.nextafter(0.625, 0.0)), 0.62, 0.63][int(rng.integers(0, 5))]
+            expect_zero = thr >= 0.625
+        else:
+            V[g0] = -0.0
+            if hasattr(est, "W1_"):
+                est.W1_[g0] = -0.0
+            thr, expect_zero = 0.25, True
+        est.alpha = thr
+        est.optimiser_.learning_rate = 1.0
+        opt = est.optimiser_
+        opt.update_params = lambda *a, **k: None
+        try:
+            est._update_weights(est._get_weights(), [np.zeros_like(w) for w in est._get_weights()])
+        finally:
+            del opt.update_params
+        rp = dict(replay, threshold=thr, group=g0)
+        zero = not np.any(skip_of(est)[g0] != 0)
+        if zero != expect_zero:
+            chk.fail("corner:" + kind, f"group {g0} of exact norm {0.625 if kind == 'tie-threshold' else 0.0} with threshold {thr!r}: "
+                     f"{'not ' if expect_zero else ''}zeroed (a row is dropped exactly when its norm is <= alpha*rate)", rp, layer="L3")
+        sel, ok = check_selection(chk, "corner:" + kind, est, rp)
+        if expect_zero and any(j in sel for j in g0):
+            chk.fail("corner:" + kind + ":selected", f"zeroed group {g0} is reported by get_selection()={sel}", rp, layer="L3")
+        check_hierarchy(chk, "corner:" + kind, est, rp)
+        check_inert(chk, "corner:" + kind, est, X, rng, rp)
+        chk.count(("corner", kind, name, thr, gkind))
+        return
+    est = impl.make(name, n_clusters=K, groups=gs, **kw)
+    for mode in ("fit", "path"):
+        key = f"corner:{kind}:{mode}"
+        rp = dict(replay, mode=mode)
+        before = (snapshot(X), snapshot(gs))
+        with Spy(est) as spy:
+            ok, res = run_alarmed(lambda: est.fit(X) if mode == "fit" else est.path(X, **pkw))
+        if not ok:
+            chk.dist["corner:wall-limit"] += 1
+            continue
+        if not (same_bits(before[0], X) and same_bits(before[1], gs)):
+            chk.fail(key + ":argument-modified", f"{mode} modified X or groups", rp, layer="L3")
+        check_groups_attr(chk, key, est, case, rp)
+        check_calls_use_current_groups(chk, key, est, spy, rp)
+        sel, nun, moved, multi = state_checks(chk, key, est, X, case, rng, rp)
+        p = est.predict_proba(X)
+        if K == 1 and not np.array_equal(p, np.ones((n, 1))):
+            chk.fail(key + ":one-cluster", "with one cluster predict_proba is not identically 1", rp, layer="L3")
+        if kind == "alpha=0" and mode == "fit" and sel != list(range(d)):
+            chk.fail(key + ":alpha-zero-drops", f"fit with alpha=0 (threshold 0) dropped features: selection {sel}", rp, layer="L3")
+        if kind == "minf=d" and mode == "path" and (len(res[3]) != 0 or sel != list(range(d))):
+            chk.fail(key + ":no-path", f"min_features=d: {len(res[3])} path steps, selection {sel} (expected none and all features)", rp, layer="L3")
+        if kind == "adversarial-columns" and nun:
+            base = est.predict_proba(X)
+            unsel = [j for j in range(d) if j not in sel]
+            for what, col in (("1e300", np.full(n, 1e300)), ("-1e300", np.full(n, -1e300)), ("denormal", np.full(n, 5e-324)),
+                              ("-0.0", np.full(n, -0.0)), ("next-double", np.nextafter(X[:, unsel[0]], np.inf))):
+                X2 = X.copy()
+                X2[:, unsel] = col[:, None]
+                if not np.array_equal(est.predict_proba(X2), base):
+                    chk.fail(key + ":not-inert", f"unselected features {unsel} replaced by {what} change predict_proba", dict(rp, what=what), layer="L3")
+        chk.traces += 1
+    chk.count(("corner", kind, name, gkind, n, d, K))
+
+
+def stream_routes(chk, i, rng):
+    """the public methods that have their own route (fit_predict, path, score, predict) with the same options as fit:
+    precomputed / asymmetric affinities, batch sizes around n, must-link / cannot-link decoration, read-only arguments; all
+    C06 state checks after each, arguments compared with copies taken before each call."""
+    name = impl.SPARSE[i % len(impl.SPARSE)]
+    n, d, K = int(rng.integers(6, 14)), int(rng.integers(2, 6)), int(rng.integers(2, 4))
+    gs, gkind = gen_groups(rng, d)
+    case = {"estimator": name, "n": n, "d": d, "K": K, "groups": gs, "gkind": gkind, "data_seed": int(rng.integers(0, 2 ** 31 - 1))}
+    X = data_of(case)
+    gem_kw, y, aff = {}, None, "computed"
+    if name in GENERIC and rng.random() < 0.5:
+        Z = rng.normal(size=(n, 3))
+        y = Z @ Z.T
+        aff = "precomputed"
+        if rng.random() < 0.5:
+            y = y + rng.normal(size=(n, n)) * 0.3 - 0.5           # asymmetric, with negative entries
+            aff = "precomputed-asymmetric"
+        gem_kw["gemini"] = impl.G.MMDGEMINI(kernel="precomputed", ovo=bool(rng.integers(0, 2)))
+    bs = [None, n, n + 3, max(1, n // 2), 1][int(rng.integers(0, 5))]
+    kw = dict(n_clusters=K, groups=gs, max_iter=int(rng.integers(2, 7)), learning_rate=5e-2, alpha=float(rng.choice([0.5, 3.0, 10.0])),
+              M=float(rng.choice([0.3, 2.0])), n_hidden_dim=int(rng.integers(1, 4)), solver=str(rng.choice(["adam", "sgd"])), batch_size=bs,
+              dynamic=bool(rng.integers(0, 2)), random_state=int(rng.integers(0, 1000)))
+    mlcl = None
+    if rng.random() < 0.4 and n >= 4:
+        idx = rng.permutation(n)[:4].tolist()
+        mlcl = ([[idx[0], idx[1]]], [[idx[2], idx[3]]])
+    readonly = bool(rng.random() < 0.5)
+    if readonly:
+        X.setflags(write=False)
+        if y is not None:
+            y.setflags(write=False)
+    replay = dict(case, params={k: v for k, v in kw.items()}, affinity=aff, mlcl=mlcl, readonly=readonly)
+    pkw = {"alpha_multiplier": 2.0, "min_features": 1, "max_patience": 2, "restore_best_weights": bool(rng.integers(0, 2))}
+
+    def mk():
+        e = impl.make(name, **kw, **gem_kw)
+        if mlcl is not None:
+            impl.add_mlcl_constraint(e, mlcl[0], mlcl[1])
+        return e
+    est, twin = mk(), mk()
+    calls = [("fit_predict", lambda: est.fit_predict(X, y)), ("predict_proba", lambda: est.predict_proba(X)), ("predict", lambda: est.predict(X)),
+             ("score", lambda: est.score(X, y)), ("get_selection", lambda: est.get_selection()),
+             ("path", lambda: est.path(X, y, **pkw)), ("predict_proba", lambda: est.predict_proba(X)), ("score", lambda: est.score(X, y))]
+    results = {}
+    for what, fn in calls:
+        key = f"routes:{what}"
+        rp = dict(replay, call=what)
+        before = (snapshot(X), snapshot(y), snapshot(gs), snapshot(kw["groups"]))
+        try:
+            with Spy(est) as spy:
+                ok, res = run_alarmed(fn)
+        except Exception as e:  # noqa
+            raise
+        if not ok:
+            chk.dist["routes:wall-limit"] += 1
+            chk.count(None)
+            return
+        results[what] = res
+        if not (same_bits(before[0], X) and same_bits(before[1], y) and same_bits(before[2], gs) and same_bits(before[3], kw["groups"])):
+            chk.fail(key + ":argument-modified", f"{what} modified X, the affinity or the groups", rp, layer="L3")
+        if what in ("fit_predict", "path"):
+            check_groups_attr(chk, key, est, case, rp)
+            check_calls_use_current_groups(chk, key, est, spy, rp)
+            state_checks(chk, key, est, X, case, rng, rp)
+        if what == "fit_predict":
+            ok2, _ = run_alarmed(lambda: twin.fit(X, y))
+            if ok2 and (not np.array_equal(res, twin.labels_) or not all(np.array_equal(a, b, equal_nan=True) for a, b in zip(est._get_weights(), twin._get_weights()))):
+                chk.fail(key + ":differs-from-fit", "fit_predict does not end in the weights / labels of fit", rp, layer="L3")
+        if what == "predict":
+            p = results["predict_proba"]
+            if not labels_agree(p, p.argmax(1), res):
+                chk.fail(key + ":not-argmax", "predict is not the arg-max of predict_proba", rp, layer="L3")
+        if what == "score":
+            g = est.get_gemini()
+            want = float(g(est.predict_proba(X), g.compute_affinity(X, y)))
+            if not (close(float(res), want, 1e-9) or (np.isnan(want) and np.isnan(res))):
+                chk.fail(key + ":value", f"score={res} but the GEMINI of predict_proba on the same affinity is {want}", rp, layer="L3")
+    chk.traces += 1
+    chk.dist["routes:affinity=" + aff] += 1
+    chk.dist["routes:batch=" + ("None" if bs is None else "n" if bs == n else ">n" if bs > n else "<n")] += 1
+    chk.dist["routes:mlcl" if mlcl else "routes:plain"] += 1
+    chk.dist["routes:read-only" if readonly else "routes:writable"] += 1
+    chk.count(("routes", name, aff, bs, mlcl is not None, gkind, n, d))
+
+
 def guarded(name, fn):
     """An exception escaping a case is the implementation's only if the same case, re-run WITHOUT any instrumentation, raises
     too; otherwise it is reported under a harness-error key (a defect of this harness, not of the property).  Exceptions caught
@@ -836,7 +1234,8 @@ def guarded(name, fn):
 
 STREAMS = {"zerocol": (stream_zerocol, 100, 1500), "groups": (stream_groups, 600, 6000), "update": (stream_update, 900, 12000),
            "fit": (stream_fit, 660, 9000), "path": (stream_path, 80, 1000),
-           "refit": (stream_refit, 200, 3000)}
+           "refit": (stream_refit, 200, 3000), "repr": (stream_repr, 40, 600), "corner": (stream_corner, 64, 960),
+           "routes": (stream_routes, 30, 450)}
 
 
 def main():
@@ -866,7 +1265,7 @@ def main():
     chk.notes.append("proximal operators are oracles here (library functions of gemclus.sparse._prox_grad, C05's subject); the theorems take "
                      "their common-factor and hierarchy-feasibility facts as premises")
     chk.finish(rule="streams: check_groups on random/malformed/edge group lists (d<=6); _update_weights of all 5 sparse estimators with the optimiser stubbed to "
-                    "the identity or recorded real step (alpha 0..1000, groups none/partition/partial, zero and underflowing rows); refits of one estimator object after set_params(groups=...) / other data (second history checked against the current groups_, the recorded operator calls and a fresh estimator); whole fits (all GEMINI names, "
+                    "the identity or recorded real step (alpha 0..1000, groups none/partition/partial, zero and underflowing rows); representation metamorphics (dtype / order / views / read-only / lists, groups as arrays, affinity likewise), degenerate sizes and inclusive interval ends and exact threshold ties, every public route (fit_predict / path / score / predict) with precomputed or asymmetric affinities, batch sizes around n, mlcl decoration and argument snapshots; refits of one estimator object after set_params(groups=...) / other data (second history checked against the current groups_, the recorded operator calls and a fresh estimator); whole fits (all GEMINI names, "
                     "precomputed MMD, adam/sgd, batch sizes, alpha 0..200, M 0..10) with every threshold recorded; path() runs snapshotted at every "
                     "compute_val_score call, at the end and on the returned best weights (dynamic on/off, precomputed affinity). non-trivial = the state has at "
                     "least one unselected feature (update stream: or declared groups; groups stream: a partial or invalid list); distinct = distinct "
